@@ -14,8 +14,8 @@ SECTOR = 2048
 
 
 def crc_ccitt(data):
-    """CRC-CCITT (poly 0x1021, init 0), bitwise - checked against the 0x29B1 vector in vectors.py (init 0xFFFF variant)
-    and the ECMA-167 sample (init 0)."""
+    """CRC-CCITT (poly 0x1021, init 0 = CRC-16/XMODEM), bitwise - checked in vectors.py against 0x31C3 for "123456789"
+    and against the ECMA-167 7.2.6 example (0x3299)."""
     crc = 0
     for b in data:
         crc ^= b << 8
@@ -121,7 +121,7 @@ def parse_vds(u, img, loc, length, where):
         if (sec + 1) * SECTOR > len(img):
             u.complain('%s: sequence leaves the image' % where)
             break
-        ident = struct.unpack_from('<H', img, sec * SECTOR)[0]
+        ident = struct.unpack('<H', img[sec * SECTOR:sec * SECTOR + 2])[0]
         if ident == 0:
             continue
         r = check_tag(u, img, sec, None, sec, '%s sector %d' % (where, sec))
@@ -231,7 +231,7 @@ def decode(img, want=True):
             if size and size[0] != part_len:
                 u.complain('LVID size table %d differs from the partition length %d' % (size[0], part_len))
             # terminator after LVID
-            t = struct.unpack_from('<H', img, (int_loc + 1) * SECTOR)[0]
+            t = struct.unpack('<H', img[(int_loc + 1) * SECTOR:(int_loc + 1) * SECTOR + 2])[0]
             if t == 8:
                 check_tag(u, img, int_loc + 1, 8, int_loc + 1, 'LVID terminator')
     # --- file set descriptor
@@ -241,7 +241,7 @@ def decode(img, want=True):
         return u
     fsd = r[0]
     u.layout.append((fs_sec * SECTOR, (fs_sec + 1) * SECTOR, 'udf fsd', ''))
-    t = struct.unpack_from('<H', img, (fs_sec + 1) * SECTOR)[0]
+    t = struct.unpack('<H', img[(fs_sec + 1) * SECTOR:(fs_sec + 1) * SECTOR + 2])[0]
     if t == 8:
         check_tag(u, img, fs_sec + 1, 8, fsd_lbn + 1, 'FSD terminator')
         u.layout.append(((fs_sec + 1) * SECTOR, (fs_sec + 2) * SECTOR, 'udf fsd terminator', ''))
@@ -260,7 +260,7 @@ def decode(img, want=True):
     def read_fe(lbn, where):
         """Returns dict about the file entry at partition block lbn."""
         sec = part_start + lbn
-        ident = struct.unpack_from('<H', img, sec * SECTOR)[0] if (sec + 1) * SECTOR <= len(img) else None
+        ident = struct.unpack('<H', img[sec * SECTOR:sec * SECTOR + 2])[0] if (sec + 1) * SECTOR <= len(img) else None
         if ident not in (261, 266):
             u.complain('%s: ICB at block %d (sector %d) is tag %s, not a file entry' % (where, lbn, sec, ident))
             return None
